@@ -45,6 +45,31 @@ def Divert.exitStatus : Divert → Option Nat
   | .continue_ _ | .break_ _ => none
   | .return_ s | .interrupt s | .exit s | .abort s => s
 
+/-- the derived `Ord` of `Divert`: variants in declaration order (severity), then the payload
+    (`None < Some`, numbers by value) -/
+def Divert.rank : Divert → Nat
+  | .continue_ _ => 0 | .break_ _ => 1 | .return_ _ => 2 | .interrupt _ => 3 | .exit _ => 4 | .abort _ => 5
+
+def optLe : Option Nat → Option Nat → Bool
+  | none, _ => true
+  | some _, none => false
+  | some a, some b => a ≤ b
+
+def Divert.le (a b : Divert) : Bool :=
+  if a.rank < b.rank then true
+  else if b.rank < a.rank then false
+  else match a, b with
+    | .continue_ x, .continue_ y => x ≤ y
+    | .break_ x, .break_ y => x ≤ y
+    | .return_ x, .return_ y => optLe x y
+    | .interrupt x, .interrupt y => optLe x y
+    | .exit x, .exit y => optLe x y
+    | .abort x, .abort y => optLe x y
+    | _, _ => true
+
+/-- `Ord::max` -/
+def Divert.max (a b : Divert) : Divert := if a.le b then b else a
+
 /-- `ControlFlow<Divert, ()>` plus fuel exhaustion -/
 inductive Res where
   | continue_
@@ -106,6 +131,9 @@ mutual
     | redirErr (k : RedirKind)             -- command whose redirection cannot be performed
     | specialErr (wrapped : Bool) (status : Nat)   -- usage error of a special built-in, directly or via `command`
     | trapExit (body : List Item)          -- `trap '…' EXIT`
+    | trapSig (body : List Item)           -- `trap '…' USR1`
+    | raise (n : Nat)                      -- `st n $(kill -s USR1 $$)`: a regular command during which
+                                           -- the (main) shell receives the trapped signal
   inductive Pipeline where
     | mk (negation : Bool) (commands : List Cmd)
   inductive Item where
@@ -124,6 +152,8 @@ structure St where
   counters : List (Nat × Nat) := []
   trace : List (Nat × Nat) := []          -- newest first
   exitTrap : Option (List Item) := none
+  sigTrap : Option (List Item) := none    -- the action of the trapped signal (USR1)
+  pending : Bool := false                 -- the signal was caught and its action has not run yet
   deriving Inhabited
 
 def St.push (s : St) (f : Frame) : St := { s with stack := f :: s.stack }
@@ -131,6 +161,39 @@ def St.pop (s : St) : St := { s with stack := s.stack.tail }
 
 /-- `Env::controls_jobs` -/
 def St.controlsJobs (s : St) : Bool := s.monitor && !s.stack.contains .subshell
+
+/-- `run_traps_for_caught_signals` is due: a caught signal with a command action, and no trap action
+    running. A subshell has no command traps (`enter_subshell` resets them) and the signal goes to
+    `$$`, which stays the main shell: what a child (or a child of a child) sends is pending in the
+    main shell, which is waiting for that child and polls when it has joined it. -/
+def St.trapDue (s : St) : Option (List Item) :=
+  if s.pending && !s.stack.contains .trap && !s.stack.contains .subshell then s.sigTrap else none
+
+/-- the tail of `run_trap` and of `Command::execute`: `$?` is restored unless the action was
+    interrupted; of two diverts the more severe one wins -/
+def finishPoll (prev : Nat) (s2 : St) (r t : Res) : St × Res :=
+  let s3 : St := match t with
+    | .break_ (.interrupt (some e)) => { s2 with status := e }
+    | .break_ (.interrupt none) => s2
+    | _ => { s2 with status := prev }
+  match r, t with
+  | _, .outOfFuel => (s3, .outOfFuel)
+  | r, .continue_ => (s3, r)
+  | .continue_, t => (s3, t)
+  | .break_ m, .break_ d => (s3, .break_ (m.max d))
+  | .outOfFuel, _ => (s3, .outOfFuel)
+
+/-- `run_traps_for_caught_signals` after a command that ended with `r` in state `s1`; `run` executes
+    the action (a list, under the `Trap` frame pushed here) -/
+def pollWith (run : St → List Item → St × Res) (s1 : St) (r : Res) : St × Res :=
+  match r with
+  | .outOfFuel => (s1, .outOfFuel)
+  | r =>
+    match s1.trapDue with
+    | none => (s1, r)
+    | some body =>
+      let x := run ({ s1 with pending := false }.push .trap) body
+      finishPoll s1.status x.1.pop r x.2
 
 /-- entering / leaving the subshell that wraps a job-controlled pipeline -/
 def St.enterJc (s : St) : St := if s.controlsJobs then s.push .subshell else s
@@ -281,6 +344,8 @@ mutual
         -- frame with `is_special = false`)
         finishSimple { s with status := status } (if wrapped then .continue_ else .break_ (.interrupt none))
       | .trapExit body => finishSimple { s with exitTrap := some body, status := 0 } .continue_
+      | .trapSig body => finishSimple { s with sigTrap := some body, status := 0 } .continue_
+      | .raise n => finishSimple { s with pending := true, status := n } .continue_
       | .group body => execList fuel s body
       | .subshell body =>
         -- the child runs on a copy with a `Subshell` frame; only status and output come back
@@ -289,7 +354,7 @@ mutual
         | .outOfFuel => (s, .outOfFuel)
         | r =>
           let c2 := c1.applyResult r
-          let s1 := { s with status := c2.status, trace := c2.trace }
+          let s1 := { s with status := c2.status, trace := c2.trace, pending := c2.pending }
           (s1, s1.applyErrexit)
       | .asyncWait body =>
         -- `execute_async`: the list runs in a subshell and the shell goes on at once with status 0;
@@ -299,7 +364,7 @@ mutual
         | .outOfFuel => (s, .outOfFuel)
         | r =>
           let c2 := c1.applyResult r
-          let s1 := { s with status := 0, trace := c2.trace }
+          let s1 := { s with status := 0, trace := c2.trace, pending := c2.pending }
           (s1, s1.applyErrexit)
       | .ifc cond body elifs els =>
         let (s1, r) := execList fuel (s.push .condition) cond
@@ -464,7 +529,10 @@ mutual
   def execCommands : Nat → St → List Cmd → St × Res
     | 0, s, _ => (s, .outOfFuel)
     | _+1, s, [] => ({ s with status := 0 }, .continue_)
-    | fuel+1, s, [c] => execCmd fuel s c
+    | fuel+1, s, [c] =>
+      -- `impl Command for syntax::Command`: the command, then the traps of caught signals
+      let x := execCmd fuel s c
+      pollWith (execList fuel) x.1 x.2
     | fuel+1, s, cmds =>
       -- `execute_multi_command_pipeline`: every command in its own subshell; under job control
       -- (`execute_job_controlled_pipeline`) the whole pipeline runs in one more subshell, whose exit
@@ -485,7 +553,7 @@ mutual
       | r =>
         let c2 := c1.applyResult r
         let final' := if c2.status ≠ 0 ∨ !s.pipefail then c2.status else final
-        execPipeMembers fuel { s with trace := c2.trace } rest final'
+        execPipeMembers fuel { s with trace := c2.trace, pending := c2.pending } rest final'
 end
 
 /-- one command line as `read_eval_loop` sees it: a complete command, or text that does not parse -/
@@ -502,10 +570,15 @@ def runScript : Nat → St → List Line → St × Res
     let r := Res.break_ (.interrupt (some 2))
     (s.applyResult r, r)
   | fuel+1, s, .cmds line :: rest =>
-    let (s1, r) := execList fuel s line
-    match r with
-    | .continue_ => runScript fuel s1 rest
-    | r => (s1.applyResult r, r)
+    -- `run_command`: traps of signals caught so far, then the command line
+    let x := pollWith (execList fuel) s .continue_
+    match x.2 with
+    | .continue_ =>
+      let (s1, r) := execList fuel x.1 line
+      (match r with
+       | .continue_ => runScript fuel s1 rest
+       | r => (s1.applyResult r, r))
+    | r0 => (x.1.applyResult r0, r0)
 
 /-- `run_exit_trap` / `run_trap`: the action runs under a `Trap` frame; `$?` is restored afterwards
     unless the action itself was interrupted -/
